@@ -177,6 +177,7 @@ func rawDAEAD(v []byte) (tink.DeterministicAEAD, error) {
 	}
 	return &hdrDAEAD{h, a}, nil
 }
+
 // rawMAC: the material is [tag length][HMAC-SHA256 key]; tag lengths below 10 (not offered by any
 // real key type) are obtained by truncating the 16-byte tag — they reach wrappedMAC's
 // "a MAC of at most 5 bytes is rejected outright" rule.
